@@ -339,7 +339,7 @@ func init() {
 	// driver (c): the stream counter at quiescent moments of a live session
 	vx.Register(&vx.Scenario{Name: "mux.count", Prop: "C12", Run: func(c *vx.Ctx) *vx.Report {
 		sc := &vrt.Scenario{
-			Opt:      vrt.Options{RandInt: chooseConnOpt(), Delay: c.P("delay", "0") == "1"},
+			Opt:      vrt.Options{RandInt: chooseConnDraws(c.P("draws", "prf")), Delay: c.P("delay", "0") == "1"},
 			Classify: deadlockIs("blocked-calls-return"),
 			Main: func() {
 				r := newMuxRig(rigCfg{conns: c.PI("conns", 2), unit: 256})
@@ -549,6 +549,8 @@ func init() {
 		jobs = append(jobs, vx.Job{Scenario: "mux.stalledclose", Params: vx.P("tls", "0"), Bound: b(2, 4), Weight: 4})
 		jobs = append(jobs, vx.Job{Scenario: "mux.stalledclose", Params: vx.P("tls", "1"), Bound: b(2, 4), Weight: 4})
 		jobs = append(jobs, vx.Job{Scenario: "mux.lateadd", Bound: b(2, 4), Weight: 3})
+		jobs = append(jobs, vx.Job{Scenario: "mux.parkedreaders", Params: vx.P("readers", "3"), Bound: b(1, 2), Weight: 3},
+			vx.Job{Scenario: "mux.parkedreaders", Params: vx.P("readers", "2", "unordered", "1"), Bound: b(1, 2), Weight: 3})
 		// a stream with 20 MiB unread (a stalled consumer) when it is given up: the close returns, the session lives on
 		jobs = append(jobs, vx.Job{Scenario: "mux.backlog", Params: vx.P("mb", "20", "close", "1"), Bound: b(0, 1), Weight: 4})
 		// record-layer connections with back-pressure: a write parked on one connection while another fails
@@ -568,6 +570,9 @@ func init() {
 		jobs = append(jobs, vx.Job{Scenario: "mux.closerace", Params: vx.P("op", "open", "conns", "2"), Bound: b(1, 2), Weight: 5})
 		jobs = append(jobs, vx.Job{Scenario: "mux.count", Params: vx.P("delay", "1"), Bound: b(1, 3), Weight: 9})
 		jobs = append(jobs, vx.Job{Scenario: "mux.count", Params: vx.P("conns", "1"), Bound: b(1, 2), Weight: 9})
+		// the stream closes of the count driver with the padding draws pinned to their extremes
+		jobs = append(jobs, vx.Job{Scenario: "mux.count", Params: vx.P("conns", "1", "draws", "max"), Bound: b(0, 1), Weight: 5},
+			vx.Job{Scenario: "mux.count", Params: vx.P("conns", "1", "draws", "min"), Bound: b(0, 1), Weight: 5})
 		for _, d := range []string{"min", "max"} {
 			jobs = append(jobs, vx.Job{Scenario: "mux.timeout", Params: vx.P("op", "idle", "draws", d), Bound: b(1, 2), Weight: 3})
 		}
